@@ -16,7 +16,9 @@ import subprocess
 import sys
 
 VERIF = os.path.dirname(os.path.dirname(os.path.abspath(__file__)))
-ENV = dict(os.environ, CARGO_NET_OFFLINE="true")
+# evidence of runs against a mutated tree goes to a scratch directory: the tracked /verif/evidence must only ever come
+# from runs against /repo itself
+ENV = dict(os.environ, CARGO_NET_OFFLINE="true", VERIF_EVIDENCE_DIR=os.path.join(os.path.dirname(os.path.dirname(os.path.abspath(__file__))), ".work", "evidence-of-mutated-trees"))
 
 
 def sh(cmd, cwd=None, timeout=3600):
